@@ -20,10 +20,13 @@ RULE = ('case = arrangement program over 2-3 applications (optionally one of the
         'operation show the own request of that application (environ identity, path, query string, cookie; response headers / cookies written before are still '
         'there); every response (outer, inner, plain, threaded) == the response of the same request on a fresh stand-alone application. The known defect K10 '
         '(ts_props store shared per class) is excluded by construction: the whole search runs with a harness-side shim that gives the generated properties '
-        'per-instance stores (vlib/shim.py); three pinned witnesses (nested call, copy(), construction while serving) run WITHOUT the shim. Additionally every single-preemption schedule of two same-kind requests on two applications on two threads (12 kinds), and EVERY ordered pair of request kinds is served first on application A (stock, own errors_map, or virtual-host configuration with domain_map / app_name_header), then on B, then on A, with different and with identical request data. Non-trivial = at '
+        'per-instance stores (vlib/shim.py); three pinned witnesses (nested call, copy(), construction while serving) run WITHOUT the shim. Additionally every single-preemption schedule of two same-kind requests on two applications on two threads (12 kinds), and EVERY ordered pair of request kinds is served first on application A (stock, own errors_map, or virtual-host configuration with domain_map / app_name_header), then on B, then on A, with different and with identical request data. Additionally ONE environ dict served twice: a dispatcher asks application A, gets a 404, optionally strips a prefix from PATH_INFO (moving it to SCRIPT_NAME) and hands the same environ to application B, where a hook of A may have looked at the request before (forms / json / POST / files / params / body read fully, partly or not at all / query / cookies / headers / url ...) and A and B may differ in one configuration key (either side); the response of B == the response of a stand-alone application to a fresh environ with the same request data (every kind shifted; every body kind x look x configuration difference). Non-trivial = at '
         'least one foreign operation or a threaded part, or a kind pair across two applications; distinct by case hash.')
 ASSUMPTIONS = ['search runs under the K10 shim (stated exclusion); witnesses run on the unmodified classes', 'nested calls on the SAME application (re-entrancy) are not part of the property',
-               'reference responses come from stand-alone applications with their own error objects']
+               'reference responses come from stand-alone applications with their own error objects',
+               'forwarded environ: A has returned before B is called (nested forwarding would sit behind K10); judged only when A answered 404 (a failed body read leaves the stream half consumed); '
+               'not judged, because the unchanged tree breaks the oracle there (reported, not allow-listed): (1) the path is shifted after A has computed request.url / script_name (its stock HTML 404 page does) - '
+               'B then shows the script_name / url cached in the environ by A; (2) A is MORE permissive than B (max_body_size / max_memfile_size) and has read the body / forms - B then serves the body A cached although it exceeds its own limits']
 
 _SOLO = {}
 
@@ -271,6 +274,129 @@ def run_case(ctx, case, shimmed=True):
     return w
 
 
+# ---------------------------------------------------------------------------------------------------------------------------------
+# one environ, two applications: a dispatcher asks application A first; A answers 404 (it does not own the path); the dispatcher
+# strips a prefix from PATH_INFO (moving it to SCRIPT_NAME) or leaves the path alone, and hands THE SAME environ dict to application B.
+# A has returned before B is called (no nesting). A may have looked at the request (a before_request hook reading forms / json / body ...),
+# and A and B may be configured differently in one key.
+
+LOOKS = {
+    'forms': lambda rq: rq.forms, 'json': lambda rq: rq.json, 'post': lambda rq: rq.POST, 'files': lambda rq: rq.files, 'params': lambda rq: rq.params,
+    'body_read': lambda rq: rq.body.read(), 'body_part': lambda rq: rq.body.read(7), 'body_peek': lambda rq: rq.body,
+    'query': lambda rq: rq.query, 'cookies': lambda rq: rq.cookies, 'headers': lambda rq: rq.headers.get('X-In'), 'url': lambda rq: rq.url,
+    'script_name': lambda rq: rq.script_name, 'content_length': lambda rq: rq.content_length, 'auth': lambda rq: (rq.auth, rq.remote_route),
+}
+FWD_DELTA = {'same': {}, 'memfile': {'max_memfile_size': 16 * 1024}, 'bodysize': {'max_body_size': 1024 * 1024}, 'xscript': {'allow_x_script_name': True},
+             'appname': {'app_name_header': 'HTTP_X_VERIF_APP'}}
+FWD_LAX = ('memfile', 'bodysize')          # deltas that make the application that has them MORE permissive than the site's 600 / 160 bytes
+FWD_PREFIX = ['', '/api']            # '': A is a front application owning other paths, the path is forwarded as it is;
+#                                      '/api': A is the site, which answers 404 there through its own per-prefix handler, the dispatcher strips the prefix
+BODY_KINDS = ['badchunk', 'oversized', 'badmultipart', 'form', 'bigform', 'badjson', 'chunked_ok', 'emptyform', 'emptybody', 'upload_headers', 'badstart', 'neg_cl', 'form_fixed']
+
+
+def fwd_scope(case):
+    """The part of the arrangement space that is judged (see ASSUMPTIONS: the two excluded parts break the oracle on the unchanged tree and are reported, not allow-listed)."""
+    case = dict(case)
+    if case['prefix']:
+        case['look'] = [x for x in case['look'] if x not in ('url', 'script_name')]
+        case['cfg'] = ['default' if case['cfg'][0] == 'domain' else case['cfg'][0], case['cfg'][1]]
+    if case['delta'] in FWD_LAX:
+        case['side'] = 1
+    return case
+
+
+def _fwd_app(cfg, delta):
+    config = dict({'errors_map': _custom_errors()} if cfg == 'custom' else (S.domain_config() if cfg == 'domain' else {}), **delta)
+    return S.make_app(config=config, private_errors=(cfg != 'custom'))
+
+
+def check_forward(ctx, case):
+    case = fwd_scope(case)
+    kind, n, prefix = case['kind'], case['n'], case['prefix']
+    da = FWD_DELTA[case['delta']] if case['side'] == 0 else {}
+    db = FWD_DELTA[case['delta']] if case['side'] == 1 else {}
+    for shimmed in ((True, False) if case.get('both', True) else (True,)):
+        if shimmed:
+            shim.install()
+        try:
+            if prefix:
+                a = _fwd_app(case['cfg'][0], da)
+            else:
+                import ombott
+                a = ombott.Ombott(dict({'max_body_size': 600, 'max_memfile_size': 160}, **da))         # a front application that owns other paths only
+
+                @a.route('/front/status')
+                def front_status():
+                    return 'front'
+            if case['look']:
+                def look(a=a):
+                    for name in case['look']:
+                        LOOKS[name](a.request)
+                a.add_hook('before_request', look)
+            b = _fwd_app(case['cfg'][1], db)
+            alone = _fwd_app(case['cfg'][1], db)
+            env = S.make_env(kind, n)
+            raw = env['PATH_INFO']
+            env['PATH_INFO'] = prefix + raw
+            ra = call_app(a, env)
+            if ra.escaped is not None:
+                raise CheckFailure(f'forwarding: the first application raised {fmt_exc(ra.escaped)[-400:]}\n arrangement: {case}')
+            if ra.code != 404:
+                ctx.count('forward_not_taken_first_application_answered')
+                continue
+            if prefix:
+                env['SCRIPT_NAME'] = prefix
+                env['PATH_INFO'] = raw
+            rb = call_app(b, env)
+            fresh_env = S.make_env(kind, n)
+            if prefix:
+                fresh_env['SCRIPT_NAME'] = prefix
+            rf = call_app(alone, fresh_env)
+        finally:
+            if shimmed:
+                shim.uninstall()
+        if rb.escaped is not None or rf.escaped is not None:
+            if type(rb.escaped) is not type(rf.escaped):
+                raise CheckFailure(f'forwarded environ: the second application raised {fmt_exc(rb.escaped) if rb.escaped else None}, with a fresh environ {fmt_exc(rf.escaped) if rf.escaped else None}\n arrangement: {case}')
+            continue
+        got, ref = (rb.status, sorted(rb.headers or []), rb.body), (rf.status, sorted(rf.headers or []), rf.body)
+        if got != ref:
+            raise CheckFailure(f'one environ served by application A (answer {ra.status!r}) and then handed on to application B ({"with" if shimmed else "without"} the shim): B answers differently '
+                               f'than for a fresh environ with the same request data (SCRIPT_NAME {prefix!r}, PATH_INFO {raw!r}):\n  got   {got[0]!r} {got[1]!r} {got[2][:200]!r}\n'
+                               f'  fresh {ref[0]!r} {ref[1]!r} {ref[2][:200]!r}\n arrangement: {case}')
+        ctx.count('forwarded_environ_responses_compared')
+        if prefix:
+            ctx.count('forwarded_environ_path_shifted')
+        if case['look'] and case['delta'] != 'same':
+            ctx.count('forwarded_environ_looked_at_by_differently_configured_application')
+        ctx.nontrivial('forward:' + repr(sorted(case.items())))
+
+
+def forward_grid():
+    out = []
+    kinds = list(S.KINDS)
+    # every kind: path shifted between the two applications (with and without the shim), and forwarded as it is after a look at the plain attributes
+    for i, k in enumerate(kinds):
+        out.append({'forward': True, 'kind': k, 'n': 5 + i % 3, 'prefix': '/api', 'look': [], 'delta': 'same', 'side': 0, 'cfg': ['default', 'default'], 'both': True})
+        plain = ['query', 'cookies', 'headers', 'content_length', 'auth', 'url', 'script_name']
+        out.append({'forward': True, 'kind': k, 'n': 5 + i % 3, 'prefix': FWD_PREFIX[i % 2], 'look': [plain[i % len(plain)], plain[(i + 3) % len(plain)]], 'delta': ['same', 'xscript', 'appname'][i % 3],
+                    'side': i % 2, 'cfg': ['default', 'default'], 'both': False})
+    # every kind with a body x every way A can have looked at the body x every configuration difference (either side)
+    i = 0
+    for k in BODY_KINDS:
+        for look in ('forms', 'json', 'post', 'files', 'params', 'body_read', 'body_part', 'body_peek'):
+            for delta, side in (('same', 0), ('xscript', 0), ('xscript', 1), ('appname', 0), ('appname', 1), ('memfile', 1), ('bodysize', 1)):
+                i += 1
+                out.append({'forward': True, 'kind': k, 'n': 5 + i % 3, 'prefix': FWD_PREFIX[i % 2], 'look': [look], 'delta': delta, 'side': side, 'cfg': ['default', 'default'], 'both': False})
+    return out
+
+
+def forward_st():
+    return st.fixed_dictionaries({'forward': st.just(True), 'kind': KIND.filter(lambda k: k != 'foreign'), 'n': st.integers(0, 30), 'prefix': st.sampled_from(FWD_PREFIX),
+                                  'look': st.lists(st.sampled_from(sorted(LOOKS)), max_size=3), 'delta': st.sampled_from(sorted(FWD_DELTA)), 'side': st.integers(0, 1),
+                                  'cfg': st.lists(st.sampled_from(['default', 'default', 'custom', 'domain']), min_size=2, max_size=2), 'both': st.just(False)})
+
+
 THREAD_PAIRS = [('rex', 'rex'), ('expires', 'expires'), ('typed', 'typed'), ('signed', 'signed'), ('form_fixed', 'form_fixed'), ('chunked_ok', 'chunked_ok'),
                 ('ok', 'ok'), ('notfound', 'notfound'), ('badjson', 'badjson'), ('crash', 'crash'), ('urlinfo', 'urlinfo'), ('auth', 'auth')]
 
@@ -460,12 +586,20 @@ def run(ctx):
             ctx.guarded(check_pair, dict(base, threads={'reqs': [[0, a, 11], [1, b, 12]], 'schedule': [[0, k], [1, BIG], [0, BIG]]}))
         ctx.count('threaded_bound1_pairs')
         ctx.count('threaded_bound1_schedules', ya + 1)
+    # one environ dict served by application A (404) and then handed on to application B by a dispatcher (sequential, no nesting)
+    fgrid = forward_grid()
+    for case in fgrid[ctx.shard::max(1, ctx.nshards)]:
+        ctx.guarded(check_forward, case)
+    ctx.count('forwarded_environ_grid', len(fgrid))
+    ctx.hyp(forward_st(), check_forward, 150 if ctx.tier == 'quick' else 3000, label='forward')
     ctx.note('search runs under vlib/shim.py (per-instance ts_props stores): exclusion by construction of open finding K10; witnesses run without it')
     n = 600 if ctx.tier == 'quick' else 8000
     ctx.hyp(case_st(), check_case, n)
 
 
 def replay(ctx, case):
+    if case.get('forward'):
+        return check_forward(ctx, case)
     if case.get('unshimmed_inner'):
         return check_inner_unshimmed(ctx, case)
     if case.get('drain'):
